@@ -233,7 +233,7 @@ class PortMachine(Machine):
             if opn == "lt" and vals[0] == 1 or opn == "gt" and vals[0] == MAXP:
                 vals = [2]
             return dict(op="port_set_items", t=t, vals=vals,
-                        as_=s.choice(["list", "list", "tuple", "str"]))
+                        as_=s.choice(["list", "list", "tuple", "str", "live", "live"]))
         if r < 0.40:
             return dict(op="port_wb_items", t=t, perm=s.choice(["same", "same", "tuple", "copy"]))
         if r < 0.62:
@@ -601,8 +601,14 @@ class PortMachine(Machine):
             return "noop"
         if not all(isinstance(v, int) and 1 <= v <= MAXP for v in vals):
             return "noop"
-        arg = {"list": list(vals), "tuple": tuple(vals), "str": [str(v) for v in vals]}[
-            op.get("as_", "list")]
+        if op.get("as_") == "live":
+            # the usual way to change operands: take the list the view returns, edit it, assign it
+            arg = p.items
+            arg[:] = vals
+            self.probes["items_edited_in_place_and_assigned"] += 1
+        else:
+            arg = {"list": list(vals), "tuple": tuple(vals), "str": [str(v) for v in vals]}[
+                op.get("as_", "list")]
         pre = self._observe(p)
         try:
             p.items = arg
